@@ -5,7 +5,7 @@ from props.c05 import rand_formula, build_expr
 RULE = ("cases = random provenances built three ways (expression lists; Provenance(units=n) as Importance.fit does; "
         "Provenance(data=<integer identifiers>) with gaps, negative and large identifiers, as list or ndarray) x one "
         "transformation (fork by int / repeat vector incl. zeros; slice incl. negative steps; index list incl. "
-        "negative and repeated indices; boolean mask as list or ndarray; none) x a random assignment; plus join cases "
+        "negative and repeated indices; boolean mask as list or ndarray; none) x a random assignment, followed by an independence probe (the source is edited in place and the derived provenance re-queried, and vice versa); identifier pools incl. -1 and negative identifiers whose maximum equals the number of identifiers - 1; plus join cases "
         "(known finding F11). non-trivial = the original mask contains both truth values or the transformation "
         "changes the number of rows; distinct = distinct JSON of the case")
 EXHAUSTIVE = {"quick": False, "thorough": False}
